@@ -94,6 +94,7 @@ class C10(runner.Check):
         add("tikhonov", "absolute", "r2", ordered=True, cost=5)
         add("cutoff", "absolute", None, ordered=True, cost=6)
         add("tikhonov", "absolute", None, cv=[[0, 2], [1, 3]], V="R513", ordered=True, cost=3)
+        add("tikhonov", "absolute", None, cv=[[0, 2, 4], [1, 3]], Q=("H122", "R35"), ordered=True, cost=4)  # unequal folds
         add("tikhonov", "relative", None, rankdef=True, zero_alpha=True, cost=3)
         add("cutoff", "relative", None, rankdef=True, zero_alpha=True, cost=3)
         if tier == "thorough":
@@ -133,8 +134,11 @@ class C10(runner.Check):
 
         m, p = 2, cfg["p"]
         V = linalg.frame(2, cfg["V"])
-        Q1, Q2 = linalg.frame(2, cfg["Q"][0]), linalg.frame(2, cfg["Q"][1])
-        linalg.HINTS[:] = [V, Q1, Q2]
+        n1 = len(cfg["cv"][0]) if cfg["cv"] else 2
+        n2 = len(cfg["cv"][1]) if cfg["cv"] else 2
+        Q1 = [r[:2] for r in linalg.frame(n1, cfg["Q"][0])]  # first two columns: orthonormal (n1 x 2)
+        Q2 = [r[:2] for r in linalg.frame(n2, cfg["Q"][1])]
+        linalg.HINTS[:] = [V] + [linalg.frame(k_, nm) for k_, nm in ((n1, cfg["Q"][0]), (n2, cfg["Q"][1]))]
         Va = arrays.exact(V)
         s1 = [c.sym("s1_0", positive=True), c.sym("s1_1", positive=True)]
         s2 = [c.sym("s2_0", positive=True), c.sym("s2_1", positive=True)]
@@ -150,7 +154,8 @@ class C10(runner.Check):
             s2[1] = c.const(0)
         A = arrays.exact(Q1) @ arrays.array([[s1[0], 0], [0, s1[1]]], dtype=object) @ Va.T
         B = arrays.exact(Q2) @ arrays.array([[s2[0], 0], [0, s2[1]]], dtype=object) @ Va.T
-        y = arrays.symbols("y", (4, p))
+        ntot = n1 + n2
+        y = arrays.symbols("y", (ntot, p))
         # place the factor blocks at the rows of each fold
         if cfg["cv"] is None:
             f1, f2 = next(KFold(n_splits=2, shuffle=False).split(np.zeros((4, 1))))
@@ -158,7 +163,7 @@ class C10(runner.Check):
         else:
             f1, f2 = np.array(cfg["cv"][0]), np.array(cfg["cv"][1])
             cv = [(f1, f2)]
-        X = arrays.zeros((4, m))
+        X = arrays.zeros((ntot, m))
         for r, i in enumerate(f1):
             X[i] = A[r]
         for r, i in enumerate(f2):
@@ -186,7 +191,7 @@ class C10(runner.Check):
         smax = None
         if cfg["atype"] == "relative":
             smax = arrays.amax(arrays.array([v for v in s1 + s2], dtype=object))
-        rc = core.to_fraction(float(4 * np.spacing(1.0)))  # the code's rcond, converted exactly as the engine converts float constants
+        rc = core.to_fraction(float(max(ntot, m) * np.spacing(1.0)))  # the code's rcond, converted exactly as the engine converts float constants
 
         def solve(Xa, ya, al, sv):
             """regularised least squares on (Xa, ya) in the singular basis (V, sv): Tikhonov s/(s^2+al) or cut-off 1/s for s > al;
@@ -234,21 +239,25 @@ class C10(runner.Check):
 
         m, p = 2, cfg["p"]
         V = np.array(linalg.frame(2, cfg["V"]), dtype=float)
-        Q1, Q2 = np.array(linalg.frame(2, cfg["Q"][0]), dtype=float), np.array(linalg.frame(2, cfg["Q"][1]), dtype=float)
+        n1 = len(cfg["cv"][0]) if cfg["cv"] else 2
+        n2 = len(cfg["cv"][1]) if cfg["cv"] else 2
+        ntot = n1 + n2
+        Q1 = np.array(linalg.frame(n1, cfg["Q"][0]), dtype=float)[:, :2]
+        Q2 = np.array(linalg.frame(n2, cfg["Q"][1]), dtype=float)[:, :2]
         s1 = [float(values.get("s1_0", 2.0)), float(values.get("s1_1", 0.7))]
         s2 = [float(values.get("s2_0", 1.3)), float(values.get("s2_1", 0.4))]
         if cfg.get("rankdef"):
             s1[1] = s2[1] = 0.0
         A, B = Q1 @ np.diag(s1) @ V.T, Q2 @ np.diag(s2) @ V.T
         rng = np.random.RandomState(2)
-        y = np.array([[float(values.get(f"y_{i}_{j}", rng.randn())) for j in range(p)] for i in range(4)])
+        y = np.array([[float(values.get(f"y_{i}_{j}", rng.randn())) for j in range(p)] for i in range(ntot)])
         if cfg["cv"] is None:
             f1, f2 = next(KFold(n_splits=2, shuffle=False).split(np.zeros((4, 1))))
             cv = None
         else:
             f1, f2 = np.array(cfg["cv"][0]), np.array(cfg["cv"][1])
             cv = [(f1, f2)]
-        X = np.zeros((4, m))
+        X = np.zeros((ntot, m))
         X[f1], X[f2] = A, B
         if cfg["atype"] == "absolute":
             alphas = np.array([float(values.get("al_0", 0.3)) or 0.3, float(values.get("al_1", 1.5)) or 1.5])
